@@ -17,7 +17,7 @@ def run(rep, tier):
     root = cx.roles.api("assembler::assemble")
     if root is None:
         return
-    r = rep.rule("R14.a", "panic inventory from assemble: every site unreachable, guarded or discharged", floor=8)
+    r = rep.rule("R14.a", "panic inventory from assemble: every site unreachable, guarded or discharged", floor=3)
     inv = cx.inventory()
     sites, reach = inv.run([root])
     rep.analysed(*sorted(reach))
